@@ -54,7 +54,7 @@ def _stored_bytes(evs):
 
 
 def check(run):
-    return syncfam.run_family(run, "C07", "wire", PFX | {"C01"}, extra=["-what", "receiver"], name="wire-receiver", assumptions=ASSUME, selftests=[
+    return syncfam.run_family(run, "C07", "wire", PFX | {"C01"}, extra=["-what", "receiver"], name="wire-receiver", assumptions=ASSUME, witness=True, selftests=[
         ("relabel one REQ with an id that was never announced", _unannounced),
         ("turn the error return after an early end of stream into success", _ok_after_early_eof),
         ("claim different bytes for the payloads that were sent", _stored_bytes)])
